@@ -55,7 +55,8 @@ if a.j <= 1:
         if subprocess.run(["git", "-C", "/repo", "apply", patch]).returncode != 0:
             rows.append((os.path.basename(d.rstrip("/")), pid, "PATCH DOES NOT APPLY", "")); print(rows[-1]); continue
         try:
-            p = subprocess.run(["./check", pid, "--tier", "quick"], cwd="/verif", capture_output=True, text=True)
+            p = subprocess.run(["./check", pid, "--tier", "quick"], cwd="/verif", capture_output=True, text=True,
+                               env=dict(os.environ, VERIF_EVIDENCE_DIR="/verif/out/evidence-alt/patched"))
         finally:
             subprocess.run(["git", "-C", "/repo", "checkout", "--", "."])
         rows.append(judge(d, mp, m, pid, p, f"tools/with_patch.sh seeded/{os.path.basename(d.rstrip('/'))}/patch.diff ./check {pid} --tier quick"))
